@@ -492,6 +492,10 @@ class Interp:
             return [Outcome("fall", env)]
         if isinstance(st, ast.Pass):
             return [Outcome("fall", env)]
+        if isinstance(st, ast.Continue):
+            return [Outcome("continue", env, None, st)]
+        if isinstance(st, ast.Break):
+            return [Outcome("break", env, None, st)]
         if isinstance(st, (ast.For, ast.While)):
             # loops: body analysed once for its effects on recorded events (0 or 1+ iterations); assigned names become TOP
             from .core import assigned_names
@@ -502,6 +506,8 @@ class Interp:
             for o in self.run(st.body, env2):
                 if o.how in ("fall",):
                     outs.append(o)
+                elif o.how in ("continue", "break"):
+                    outs.append(Outcome("fall", o.env))      # leaves the pass / the loop: execution goes on after the loop
                 elif o.how in ("return", "raise"):
                     outs.append(o)
             return outs
